@@ -89,6 +89,9 @@ def run(ctx):
     ctx.add_sample({"policy": blocks[-1][0], "scenario": blocks[-1][1]})
     rng.shuffle(blocks)
     n, acc = pipeline.drive_vsched(ctx, exe, blocks, SPEC_DIR, "ThreadSchedTrace", "Trace.cfg", label="ts")
+    # data-race scan on the ThreadSanitizer build (what a serialising scheduler cannot see)
+    scan = [b for b in blocks if not b[0].startswith("dfs")][: (120 if not thorough else 1500)]
+    pipeline.race_scan(ctx, "threadsched_scenario", "threadsched_scenario.c", scan)
     ctx.evaluations += n
     ctx.distinct_extra += max(0, n - len(blocks))   # every DFS execution is a distinct schedule by construction
     ctx.extra["executions"] = n
